@@ -34,7 +34,7 @@ def cases(tier, seed):
             for k in (1, 2):
                 for ws in ('equal', 'none'):
                     out.append({'k': 'one', 'equal': v, 'ws': ws, 'budget': b, 'n': k, 'spec': None})
-    # frames holding more objects than the watch processor's own budget (default 1000)
+    # frames holding more objects than the variable budget, plus watches
     for n in (998, 1000, 1002, 1200):
         for ws in ('temp', 'same', 'alias', 'failing'):
             out.append({'k': 'big', 'size': n, 'ws': ws})
@@ -70,7 +70,8 @@ def run_big(ctx, desc):
     a = [[100000 + i] for i in range(n // 2)]   # n//2 lists + n//2 distinct ints
     loc = {'a': a, 'z': 7}
     watches = {'temp': ['[1, 2, 3]'], 'same': ['a'], 'alias': ['a[0]'], 'failing': ['1/0', 'z']}[ws]
-    agent, run, info = snapref.take(loc, [{'watches': watches, 'MAX_VARIABLES': 5000, 'MAX_COLLECTION_SIZE': 5000}])
+    # the frame alone exhausts the budget, so the watch's root cannot be recorded any more (must become an error result, not a dangling id)
+    agent, run, info = snapref.take(loc, [{'watches': watches, 'MAX_VARIABLES': n // 2, 'MAX_COLLECTION_SIZE': 5000}])
     ctx.case()
     if run.escaped or len(agent.snapshots) != 1:
         ctx.violation('C07/no-snapshot/big', f'{n} objects: snapshots={len(agent.snapshots)}', desc)
@@ -81,7 +82,7 @@ def run_big(ctx, desc):
     if probs:
         ctx.violation(f'C07/dangling/{probs[0][0]}/watch-budget-exhausted', f'frame with {len(snap.var_lookup)} recorded objects, watches {watches}: '
                                                                             f'unresolved references {probs[:2]}', desc)
-    ctx.outcome(('big', len(snap.var_lookup) > 1000, ws))
+    ctx.outcome(('big', [w.error for w in snap.watches], ws))
 
 
 def run_case(ctx, desc):
